@@ -10,9 +10,12 @@ THEOREMS = {
         "nil_branch_is_error", "plain_walk", "structural_visits_all", "semantic_subset_structural",
         # instance side conditions on the regenerated tables (decide +kernel)
         "extractor_recognised_everything", "semanticSubset_inst", "branchesComplete_inst", "copyTotal_inst", "helpers_allocate_inst",
-        "schemaCopyOK_partial_inst", "schemaCopyOK_current_fails",
-        # current code: finding + partial + repaired
-        "c11_copy_full_refuted", "c11_copy_partial", "schemaCopyOK_fixed", "c11_copy_fixed", "c11_walk",
+        "schemaCopyOK_inst",
+        # current code: the full statement, both halves
+        "c11_copy", "c11_walk",
+        # the old copy table (errors copied by assignment), as a named constant: refutation, partial, repaired
+        "schemaCopyOK_old_fails", "c11_copy_full_refuted_old", "schemaCopyOK_partial_old", "c11_copy_partial_old",
+        "schemaCopyOK_fixed_old", "c11_copy_fixed_old",
     )],
 }
 
@@ -150,7 +153,8 @@ MANIFEST = {
             "returned; a nil branch yields the constructor error instead of being skipped. Proved for every schema and table: if the copy table is deep-or-harmlessly-shallow, Copy's result is equal "
             "up to addresses and shares no mutable address with the original; if the structural branch table covers the schema, the structural walk enters every node the schema defines, and a "
             "superset of the semantic walk. The side conditions are decided by the kernel on tables extracted from the current sources on every run, so a new field that copy() or a cursor "
-            "constructor forgets breaks the build. Current code: all walker conditions hold; the copy condition fails for the shallowly copied errorContext.errors slice (append aliasing, "
-            "reproduced on the real code) - full statement refuted by witness, partial and repaired versions proved.",
+            "constructor forgets breaks the build. Current code: all side conditions hold, so both halves are theorems at full strength (c11_copy, c11_walk). The former defect — "
+            "errorContext.errors copied by assignment, append aliasing between a model and its copy, fixed by Copy(s.errors) + case []error — is kept as theorems over the named old table "
+            "(refutation by witness, partial, repaired) and as regression cases in corpus/C11.",
     "note": "Trusted: Lean kernel, the syntactic extractor (cross-checked per case against reflection and the real walkers' logs), Go slice semantics, immutability of graph.Kind and opaque payloads.",
 }
